@@ -163,9 +163,10 @@ type respPlan struct {
 	Items       []itemPlan `json:"items"`
 }
 type c12Case struct {
-	Call    string     `json:"call"`
-	Version string     `json:"version"`
-	Plans   []respPlan `json:"responses"`
+	BatchSize int        `json:"batch_size,omitempty"`
+	Call      string     `json:"call"`
+	Version   string     `json:"version"`
+	Plans     []respPlan `json:"responses"`
 }
 
 func payloadTree(rt *rapid.T, op kmip.Operation) string {
@@ -443,25 +444,43 @@ func c12Run(c c12Case) (sig string, err error) {
 		defer cl.Close()
 		var res kmipclient.BatchResult
 		var berr error
+		nreq := c.BatchSize
+		if nreq < 2 {
+			nreq = 2
+		}
+		var reqs []kmip.OperationPayload
+		for i := 0; i < nreq; i++ {
+			reqs = append(reqs, &payloads.ActivateRequestPayload{UniqueIdentifier: fmt.Sprintf("item-%d", i)})
+		}
 		if perr := safely(func() error {
-			res, berr = cl.Batch(ctx, &payloads.ActivateRequestPayload{UniqueIdentifier: "a"}, &payloads.ActivateRequestPayload{UniqueIdentifier: "b"})
+			res, berr = cl.Batch(ctx, reqs...)
 			return nil
 		}); perr != nil {
 			return "batch-panics", perr
 		}
 		rp := c.Plans[0]
-		conformantCounts := rp.HeaderCount == 0 && len(rp.Items) == 2
+		conformantCounts := rp.HeaderCount == 0 && len(rp.Items) == nreq
 		if berr == nil && !conformantCounts {
-			return "batch-accepts-wrong-counts", fmt.Errorf("Batch succeeded with %d items (header delta %d) for 2 requests", len(rp.Items), rp.HeaderCount)
+			return "batch-accepts-wrong-counts", fmt.Errorf("Batch succeeded with %d items (header delta %d) for %d requests", len(rp.Items), rp.HeaderCount, nreq)
 		}
 		if berr != nil {
 			return "", nil
 		}
 		var uerr error
-		if perr := safely(func() error { _, uerr = res.Unwrap(); return nil }); perr != nil {
+		var upl []kmip.OperationPayload
+		if perr := safely(func() error { upl, uerr = res.Unwrap(); return nil }); perr != nil {
 			return "unwrap-panics", perr
 		}
 		for i, ip := range rp.Items {
+			if ip.Status == 1 {
+				// every failed item is surfaced by Unwrap, wherever it stands in the batch
+				if s := checkErrorCarries(uerr, ip); s != "" {
+					return "unwrap-" + s, fmt.Errorf("Unwrap() = %v does not carry failed item %d %+v", uerr, i, ip)
+				}
+			}
+			if ip.Status == 0 && ip.OpMode == "requested" && ip.PayloadMode == "requested" && (i >= len(upl) || upl[i] == nil) {
+				return "unwrap-drops-successful-payload", fmt.Errorf("Unwrap() returned no payload for successful item %d", i)
+			}
 			if ip.Status == 1 { // (Batch returned no error, so the response was decodable)
 				if s := checkErrorCarries(res[i].Err(), ip); s != "" {
 					return "batch-item-" + s, fmt.Errorf("item %d: Err() = %v for plan %+v", i, res[i].Err(), ip)
@@ -548,7 +567,8 @@ func TestC12Responses(t *testing.T) {
 		case "Signer":
 			c.Plans = []respPlan{drawRespPlan(rt, kmip.OperationGetAttributes, 1), drawRespPlan(rt, kmip.OperationGetAttributes, 1), drawRespPlan(rt, kmip.OperationGet, 1)}
 		case "Batch":
-			c.Plans = []respPlan{drawRespPlan(rt, kmip.OperationActivate, 2)}
+			c.BatchSize = rapid.IntRange(2, 4).Draw(rt, "batchsize")
+			c.Plans = []respPlan{drawRespPlan(rt, kmip.OperationActivate, c.BatchSize)}
 		default:
 			for _, a := range apiCalls {
 				if a.Name == c.Call {
